@@ -85,7 +85,7 @@ func vpMessage(o vpMsgOpts, k *vpConds) *pb.Message {
 		si, st := vpU64(), vpU64()
 		k.add(si <= vpMaxIdx)
 		k.add(st <= vpMaxIdx)
-		sh := vpShapes[vpChoose(len(vpShapes))]
+		sh := vpShapes[vpChoose(vpSnapShapes)]
 		m.Snapshot = &pb.Snapshot{Metadata: &pb.SnapshotMetadata{Index: new(si), Term: new(st), ConfState: vpConfState(sh)}, Data: vpBytes(vpMaxSize)}
 	}
 	return m
@@ -444,7 +444,14 @@ func vpValidity(r *raft, m *pb.Message, k *vpConds) {
 	default:
 		k.add(from != r.id)
 	}
-	k.add(from != None)
+	switch m.GetType() {
+	case pb.MsgHup, pb.MsgBeat, pb.MsgCheckQuorum, pb.MsgProp, pb.MsgReadIndex, pb.MsgTransferLeader, pb.MsgForgetLeader:
+		// local requests: RawNode's methods leave From unset (Campaign,
+		// ReadIndex, ForgetLeader, ProposeConfChange) or set it to this node or
+		// to the subject of the request
+	default:
+		k.add(from != None)
+	}
 	// V-term: messages that travel between nodes carry the sender's term (>= 1);
 	// local requests carry none.
 	switch m.GetType() {
@@ -499,6 +506,10 @@ func vpValidity(r *raft, m *pb.Message, k *vpConds) {
 // (used to split the largest leader cells by sender).
 var vpFromOnly uint64
 
+// vpCellAssume: an additional, cell-specific restriction of the pre-state and
+// message (stated in the cell's comment; part of its bound)
+var vpCellAssume func(r *raft, m *pb.Message) bool
+
 func vpStepCell(role StateType, o vpOpts, mo vpMsgOpts) {
 	nd := vpBuild(o)
 	r := nd.r
@@ -507,6 +518,9 @@ func vpStepCell(role StateType, o vpOpts, mo vpMsgOpts) {
 	vpValidity(r, m, k)
 	if vpFromOnly != 0 {
 		k.add(m.GetFrom() == vpFromOnly)
+	}
+	if vpCellAssume != nil {
+		k.add(vpCellAssume(r, m))
 	}
 	k.assume()
 	pre := vpRecord(r)
@@ -552,6 +566,7 @@ func vpStepCell(role StateType, o vpOpts, mo vpMsgOpts) {
 		vpPostCampaignGate(r, pre, p2, m)
 	}
 	vpPostReadReset(r, pre)
+	vpPostReadGeneric(r, pre, p2, m)
 }
 
 // ---- C11 cells: leader with queued read requests, singleton and joint shapes ----
@@ -574,7 +589,41 @@ func vpReadCell(typ pb.MessageType, shapes []int, reads, pend int) {
 }
 
 func vpH_read_L_MsgReadIndex()           { vpReadCell(pb.MsgReadIndex, []int{0, 1}, 1, 1) }
-func vpH_read_L_MsgReadIndex_singleton() { vpReadCell(pb.MsgReadIndex, []int{6, 8}, 0, 0) }
+func vpH_read_L_MsgReadIndex_singleton() { vpReadCell(pb.MsgReadIndex, []int{6, 8, 11, 12}, 0, 0) }
+
+// a leader with a postponed read request receives the acknowledgement that
+// commits the first entry of its term: the request must enter the quorum round
+func vpH_read_L_MsgAppResp_pending() { vpReadPendingCell(0) }
+func vpH_read_L_MsgAppResp_pending_joint() { vpReadPendingCell(12) }
+
+// (restricted to: exactly one postponed request, an accepting acknowledgement)
+func vpReadPendingCell(shape int) {
+	vpFromOnly = 2
+	vpCellAssume = func(r *raft, m *pb.Message) bool {
+		return vpAnd(len(r.pendingReadIndexMessages) == 1, !m.GetReject(), m.GetTerm() == r.Term)
+	}
+	o := vpDefaultOpts(StateLeader)
+	o.ls, o.lu = 0, 1
+	o.shapes = []int{shape}
+	o.pendReads = 1
+	o.plainData = true
+	vpStepCell(StateLeader, o, vpMsgOpts{typ: pb.MsgAppResp})
+}
+
+// campaign gate with a pending (possibly already handed out) snapshot, and
+// with a backlog of unapplied entries behind a symbolic apply-size limit
+func vpH_step_F_MsgHup_snap() {
+	o := vpDefaultOpts(StateFollower)
+	o.unstSnap = true
+	vpStepCell(StateFollower, o, vpMsgOpts{typ: pb.MsgHup})
+}
+
+func vpH_step_F_MsgHup_paged() {
+	o := vpDefaultOpts(StateFollower)
+	o.ls, o.lu = 2, 1
+	o.noSizeLimit = false
+	vpStepCell(StateFollower, o, vpMsgOpts{typ: pb.MsgHup})
+}
 func vpH_read_L_MsgHeartbeatResp()       { vpFromOnly = 2; vpReadCell(pb.MsgHeartbeatResp, []int{0}, 2, 0) }
 func vpH_read_L_MsgHeartbeatResp_joint() { vpFromOnly = 2; vpReadCell(pb.MsgHeartbeatResp, []int{1}, 2, 0) }
 func vpH_read_L_MsgHeartbeatResp_any()   { vpReadCell(pb.MsgHeartbeatResp, []int{0, 1, 9}, 2, 0) }
